@@ -1,0 +1,17 @@
+//go:build verif
+
+// Contracts for package line (comment-only; read by /verif/govc).
+
+package line
+
+//@ func New
+//@   assigns nothing
+//@   ensures [fields] result != nil && result.Content == content && result.Count == count && result.TransmittedPerc == transmittedPerc && result.SourceID == sourceID
+//@ func Null
+//@   assigns nothing
+//@   ensures [nonnil] result != nil && result.Content == nil
+//@ func (*Line).Recycle
+//@   assigns nothing
+//@ func (*Line).NullValues
+//@   assigns *l
+//@   ensures [nulled] l.Content == nil && l.Count == 0 && l.TransmittedPerc == 0 && l.SourceID == ""
